@@ -116,6 +116,26 @@ func funcValue(v ssa.Value) *ssa.Function {
 		return funcValue(x.X)
 	case *ssa.MakeInterface:
 		return funcValue(x.X)
+	case *ssa.Call:
+		// an adapter: a function with exactly one function-typed parameter that returns a function (a closure around
+		// that parameter which fits it to another signature — sessionless(h)): the row is the adapted function
+		sc := ir.StaticCallee(x)
+		if sc == nil || sc.Blocks == nil || sc.Signature.Results().Len() != 1 {
+			return nil
+		}
+		if _, isFn := sc.Signature.Results().At(0).Type().Underlying().(*types.Signature); !isFn {
+			return nil
+		}
+		idx, n := -1, 0
+		for i, p := range sc.Params {
+			if _, isFn := p.Type().Underlying().(*types.Signature); isFn {
+				idx = i
+				n++
+			}
+		}
+		if n == 1 && idx < len(x.Call.Args) {
+			return funcValue(x.Call.Args[idx])
+		}
 	}
 	return nil
 }
